@@ -192,6 +192,20 @@ func runC18JSON(t *vs.Tape, cfg map[string]string) (res vs.Result) {
 		return fail(vs.Violationf("C18/json-roundtrip", "save -> load does not give back the same signatures (load error: %v)", err))
 	}
 	c.Inc("save_load_round_trips")
+	// every truncation point of the saved file: loading must fail or give the
+	// complete database, never a silent prefix
+	if saved, err := d.ReadFile(simFile); err == nil && len(saved) < 6000 {
+		tpath := simDir + "/truncated.json"
+		for cut := 0; cut < len(saved); cut++ {
+			d.WriteFile(tpath, saved[:cut], 0o600)
+			ok, lerr := loadMatches(tpath, m)
+			c.Inc("load_truncation_points")
+			if lerr == nil && !ok {
+				return fail(vs.Violationf("C18/json-load-short-success", "LoadDatabase of the file truncated at byte %d of %d succeeded with a different (shorter) database", cut, len(saved)))
+			}
+		}
+		d.Remove(tpath)
+	}
 	// make the old file durable: "an old file existed"
 	hadOld := t.Chance("j.hadold", 3, 4)
 	old := m.clone()
